@@ -22,8 +22,8 @@ type Bind struct {
 }
 type Dummy struct{ V int32 }
 
-func hInt32(v int32) *hval   { return &hval{k: hInt, z: int64(v)} }
-func hStr(s string) *hval    { return &hval{k: hString, s: s} }
+func hInt32(v int32) *hval { return &hval{k: hInt, z: int64(v)} }
+func hStr(s string) *hval  { return &hval{k: hString, s: s} }
 func hObj(cls string, names []string, vals []*hval) *hval {
 	return &hval{k: hObject, ty: cls, fnames: names, items: vals}
 }
@@ -46,7 +46,7 @@ func unknownValue(r *rng, depth int) *hval {
 	case 6:
 		return &hval{k: hBinary, bin: []byte{1, 2, 3}}
 	case 7:
-		return &hval{k: hDate, z: int64(r.intn(1 << 30)) * 1000}
+		return &hval{k: hDate, z: int64(r.intn(1<<30)) * 1000}
 	case 8:
 		if depth < 2 {
 			return hObj("Inner", []string{"a", "s"}, []*hval{hInt32(int32(r.intn(50))), hStr("in")})
